@@ -266,6 +266,34 @@ def tree(ctx, fx):
         if vals != {"black"}:
             det.append("colour sent to the parent is %s" % sorted(vals))
         ctx.ob("C04.tree.announce-guard", f["qn"], not det, "; ".join(det), fn.loc(), "propGlobalTerm", fnkey=f["key"])
+        # work a thread has reported (processIsBlack) may only be forgotten at the moment it has been folded into a token
+        # that travels up: the colour is cleared only under `haveAll` (the one branch in which `black`, which was read from
+        # processIsBlack in this very call, is forwarded), and a forwarding of `black` follows on every path
+        det = []
+        clr = lambda e: (e.get("k") == "assign" and S(e.get("lhs"), al).endswith("processIsBlack") and S(e.get("rhs")) in ("false", "0")) or \
+            (e.get("k") == "atomic" and e.get("kind") == "store" and e.get("p", "").endswith("processIsBlack"))
+        fwd = lambda e: (e.get("k") == "atomic" and e["kind"] == "store" and "parent_offset" in e["p"]) or \
+            (e.get("k") == "assign" and ("parent_offset" in e.get("lp", "") or S(e.get("lhs"), al).endswith("lastWasWhite"))) or pg(e)
+        clrs = list(fn.events(clr))
+        if not clrs:
+            det.append("the process colour is never cleared")
+        if fn.guarded_positions(clr, lambda t: S(t) == "haveAll", True):
+            det.append("processIsBlack is cleared on a path where not all tokens were present: the colour read into `black` is "
+                       "not forwarded there, so work reported since the last up-token is forgotten and termination can be "
+                       "announced while that thread is busy")
+        for p, _ in clrs:
+            if fn.exit_reachable_without(fwd, starts=[fn.after(p)]):
+                det.append("processIsBlack cleared without the accumulated colour being sent up / used by the master afterwards")
+        # the colour that is forwarded was read before the clearing (black is declared before every clear)
+        bdp = [p for p, e in fn.events(lambda e: e.get("k") == "decl" and e.get("n") == "black")]
+        if bdp and fn.reaches_without(clr, lambda e: e.get("k") == "decl" and e.get("n") == "black"):
+            det.append("processIsBlack cleared before it was read into the colour to forward")
+        ctx.rule("C04.tree.colour-cleared-only-when-forwarded",
+                 "TreeTerminationDetection::processToken: the thread's own colour (processIsBlack, set by localTermination(true)) "
+                 "is cleared only on the `haveAll` branch -- the only one in which `black`, read from processIsBlack in the same "
+                 "call, is sent to the parent or evaluated by the master -- after it was read and with the forwarding following "
+                 "on every path")
+        ctx.ob("C04.tree.colour-cleared-only-when-forwarded", f["qn"], not det, "; ".join(det), fn.loc(), "processIsBlack", fnkey=f["key"])
     fs = inst(fx, TTD + "::initializeThread")
     for f in fs[:1]:
         fn = ctx.fn(f)
